@@ -40,8 +40,13 @@ var profiles = map[string]profile{
 			"pkg/event/event.go":                {Swap: map[string]string{"sync": pSync}},
 			"pkg/db/diffdb/db.go":               {Swap: map[string]string{"sync": pSync}},
 			"pkg/consensus/sync/sync.go":        {Swap: map[string]string{"sync": pSync, "time": pTime}, GoTasks: true, Selects: true},
+			// the block sync asks all peers for their tips from one goroutine per peer
+			"pkg/consensus/sync/block_sync.go":     {Swap: map[string]string{"sync": pSync}, GoTasks: true},
+			"pkg/consensus/sync/request.go":        {Swap: map[string]string{"time": pTime, "context": pCtx}, GoTasks: true, Selects: true},
+			"pkg/consensus/sync/peer_selection.go": {Swap: map[string]string{"math/rand": pRand}},
 		},
-		AddDirs: []string{"common"},
+		AddDirs:    []string{"common"},
+		ReplacePkg: map[string]string{"pkg/p2p": "chainstub/p2p"},
 	},
 	// chainsim: N whole nodes on a discrete-event loop. pkg/p2p is replaced by the stub; clocks, randomness and
 	// request contexts are simulated; fork-join helpers run in call order so that results do not depend on the Go scheduler.
